@@ -73,8 +73,6 @@ Inductive value : Type :=
 (* one switch per construct in which src/xpath.c departs from the recommendation *)
 Record flags : Type := {
   f_prec : Z;             (* mantissa bits: 53 IEEE double; 64 long double (struct lyxp_set val.num) *)
-  f_n2s : bool;           (* lyxp_set_cast(): number -> string with '%lld' / '%03.1Lf' *)
-  f_s2n : bool;           (* cast_string_to_number(): strtold() *)
   f_bytes : bool;         (* xpath_string_length/xpath_substring/xpath_translate count bytes *)
   f_strval : bool;        (* cast_string_recursive(): string value of inner nodes with line feeds and indentation *)
   f_predglobal : bool;    (* eval_predicate(): positions count over the whole step result, not per context node *)
@@ -85,11 +83,11 @@ Record flags : Type := {
 }.
 
 Definition spec_flags : flags :=
-  {| f_prec := 53; f_n2s := false; f_s2n := false; f_bytes := false; f_strval := false; f_predglobal := false;
+  {| f_prec := 53; f_bytes := false; f_strval := false; f_predglobal := false;
      f_rootstar := false; f_text := false; f_canon := false; f_nsaxis := false |}.
 
 Definition impl_flags : flags :=
-  {| f_prec := 64; f_n2s := true; f_s2n := true; f_bytes := true; f_strval := true; f_predglobal := true;
+  {| f_prec := 64; f_bytes := true; f_strval := true; f_predglobal := true;
      f_rootstar := true; f_text := true; f_canon := true; f_nsaxis := true |}.
 
 (* error classes *)
@@ -257,10 +255,12 @@ Definition string_value (fl : flags) (t : list xnode) (it : item) : bytes :=
       else text_of t (fun _ => true)
   end.
 
+(* the two conversions of the code are those of the recommendation at the precision of the code
+   (XPathConvP.s2n_impl_eq_spec, n2s_impl_eq_spec; since /repo b906576 and 54bf5db) *)
 Definition s2n (fl : flags) (s : bytes) : xnum :=
-  if f_s2n fl then impl_s2n (f_prec fl) s else spec_s2n (f_prec fl) s.
+  spec_s2n (f_prec fl) s.
 Definition n2s (fl : flags) (x : xnum) : bytes :=
-  if f_n2s fl then impl_n2s x else spec_n2s (f_prec fl) x.
+  spec_n2s (f_prec fl) x.
 
 Definition set_string (fl : flags) (t : list xnode) (l : list item) : bytes :=
   match l with [] => [] | it :: _ => string_value fl t it end.
